@@ -89,7 +89,7 @@ CLAIMS = {
         "stratification test is equivalent to the declarative condition (two rules on a dependency cycle lie in one SCC), every macro reaching itself from an invocation "
         "is rejected for any budget, leftover-panic sites unreachable and the code-generation panics characterised exactly. The thorough tier compiles ~285 programs "
         "with rustc (the diagnostic must point into the program). Every full-strength statement that is false of the real code has a decide-d witness and a known "
-        "finding (FM1-FM11: accepted ill-formed programs, macro panics, eager exponential expansion, spurious rejections).",
+        "finding (FM2-FM6, FM8, FM10, FM11: accepted ill-formed programs, macro panics, eager exponential expansion, spurious rejections); FM1, FM7, FM9, FM12 were repaired by fix commits and their witnesses must pass.",
    design_ref="DESIGN.md §8 C15",
    note="Lean kernel; axioms propext/Classical.choice/Quot.sound; trusted: the text->summary printer of the generator, syn, rustc diagnostics, in-process spans "
         "(span-dependent cases go to rustc in the thorough tier); FM3 (token level) and FM11 (span-dependent hygiene) are not modelled."),
@@ -149,8 +149,8 @@ CLAIMS = {
    technique="Lean 4 theorems for the parts with logical content (re-declaration resolution, initialised relations) + compiled-variant correspondence for everything the model erases",
    text="Lean 4 theorems: dedup_all_keep_last_by and the reverse name lookup select the same (last) declaration, so a later re-declaration wins consistently "
         "(redeclaration_last_wins, redeclaration_unique, all declaration lists); `relation r(..) = e` starts from exactly the tuples of e: run() on the Default "
-        "value computes the least model over the initialisers with the initialiser as row prefix (init_starts_from_initialiser), while the double indexing "
-        "under ascent! is a kernel-checked witness of finding F3 (init_then_run_duplicates_agg_view). measure_rule_times, generate_run_timeout, generic struct "
+        "value computes the least model over the initialisers with the initialiser as row prefix (init_starts_from_initialiser), and with aggregation every "
+        "tuple of an initialiser is handed to aggregators once (init_agg_view_each_once; finding F3, fixed by 8b2e261). measure_rule_times, generate_run_timeout, generic struct "
         "signatures, ascent_run!/ascent_run_par! capture, include_source! at first/middle/last position, ascent_par! and (thorough) segment-codegen are erased by "
         "the model: every variant of every base program is compiled and must equal the base's model and naive oracle.",
    design_ref="DESIGN.md §8 C09", note=ENGINE_NOTE + " For the erased configuration dimensions the claim rests on the correspondence (partial); rustc's macro_rules expansion of ascent_source!/include_source! is trusted."),
@@ -171,10 +171,11 @@ CLAIMS = {
    text="Lean 4 theorems for every stratified program with aggregation/negation (no lattices), every interpretation incl. arbitrary user aggregators, every "
         "duplicate-free input: the list handed to an aggregator is a duplicate-free enumeration of exactly the relation's rows (agg_view_each_once); when the SCC "
         "of an aggregating rule runs, the aggregated relation already has its final content (agg_sees_final); and run() computes exactly the least model in which "
-        "every agg / negation is evaluated against the final relation (run_agg_eq_model; from any well-formed value: run_agg_from_eq_model). The hypotheses are "
-        "needed: second_run_duplicates_agg_view is the kernel-checked witness of finding F2. Tied by compiled generated programs with count/sum/min/max/not at "
-        "stratum depth 1-3 over every mix of bound / wildcard / aggregated columns, vs model and stratified naive oracle; F2 and F15 are known findings whose "
-        "bug-faithful model predictions are matched exactly.",
+        "every agg / negation is evaluated against the final relation (run_agg_eq_model; from any well-formed value: run_agg_from_eq_model). Since fix 8b2e261 "
+        "these hold from ANY program value with duplicate-free rows: second and later runs, runs after pushes or an initialiser (agg_view_each_once_from, "
+        "run_agg_eq_model_from, second_run_agg_view_each_once). Tied by compiled generated programs with count/sum/min/max/not at "
+        "stratum depth 1-3 over every mix of bound / wildcard / aggregated columns, vs model and stratified naive oracle; F15 (caller duplicates) is a known finding whose "
+        "bug-faithful model prediction is matched exactly; F2/F3 are fixed and their witnesses must pass.",
    design_ref="DESIGN.md §8 C04", note=ENGINE_NOTE + " Aggregation over lattices and parallel mode (F5) are covered by the tie of C03/C02 only."),
  "C18": dict(
    engine="tie-C-ds",
@@ -216,7 +217,7 @@ CLAIMS = {
    text="Lean 4 theorems for every aggregation-free serial program and every history run;run and run;push;run from any well-formed value: a second run() appends "
         "nothing (rerun_idempotent: row vectors literally unchanged) and a re-run after pushing facts into any relations equals the least model of the union "
         "of all inputs (monotone_rerun, via lfp(lfp I ∪ J) = lfp(I ∪ J)). Tied by driving compiled programs through generated histories of run/push/dump.",
-   design_ref="DESIGN.md §8 C13", note=ENGINE_NOTE + " Programs with aggregation (finding F2) and parallel re-runs (finding F4) are outside the theorems."),
+   design_ref="DESIGN.md §8 C13", note=ENGINE_NOTE + " Idempotence of programs with aggregation and parallel re-runs are tied (compiled histories), not proved; F2 and F4 are fixed."),
  "C14": dict(
    engine="tie-B-engine",
    technique="Lean 4 theorems over an arbitrary deadline oracle (all crash points, repeated interruptions) + exhaustive crash-point correspondence under a virtual clock",
@@ -224,7 +225,7 @@ CLAIMS = {
         "run_timeout=false leaves only derivable tuples, keeps every input and a well-formed value (timeout_false_sound); after any number of interruptions "
         "at any points a completing call leaves exactly the least model of the original inputs (resume_complete). Tied by compiled programs with "
         "#![generate_run_timeout] under the virtual-clock hook, for EVERY crash point k of every case plus repeated interruptions.",
-   design_ref="DESIGN.md §8 C14", note=ENGINE_NOTE + " The wall clock is replaced by the hook (ascent::internal::verif); aggregation inherits finding F2."),
+   design_ref="DESIGN.md §8 C14", note=ENGINE_NOTE + " The wall clock is replaced by the hook (ascent::internal::verif); programs with aggregation are tied only."),
  "C19": dict(
    engine="tie-C-ds",
    technique="Lean 4 refinement theorems (index model -> abstract multimap, all op sequences, all interleavings of atomic steps) + op-sequence correspondence (tie C)",
